@@ -356,6 +356,18 @@ pub fn check(ctx: &mut Ctx) -> i32 {
     if let Some(f) = explore(ctx, &acc, "mixed-streams", "stream", &mixed_strategy, n, ctx.workers, run_case) {
         return fail(ctx, &acc, &f.case, &f.fail);
     }
+    if let Some(code) = crate::props::l3phases::c10_socket_phase(ctx, &acc) {
+        if code != EXIT_OK {
+            write_evidence(ctx, &acc, RULE, ASSUME, 1);
+            return code;
+        }
+    }
+    if let Some(code) = crate::props::l3phases::c10_memory_phase(ctx, &acc) {
+        if code != EXIT_OK {
+            write_evidence(ctx, &acc, RULE, ASSUME, 1);
+            return code;
+        }
+    }
     write_evidence(ctx, &acc, RULE, ASSUME, 0);
     print_summary(ctx, &acc);
     EXIT_OK
